@@ -169,6 +169,19 @@ CHECKS = {
         "preconditions (decoders receive str), one loop iteration generalises (the loop carries no state between lines other than the "
         "stack).",
    technique="contract-based deductive verification: static raises-contracts (may-raise analysis) + pyvc isolation obligations on the real loop body; bounded fuzz stand-in"),
+ "C09": dict(
+   category="other", design_ref="DESIGN.md section 8 C09",
+   text="Line level, decided by fstc for ALL well-formed texts: the transducer of the real Contentlines.from_ical (uFOLD / NEWLINE regexes "
+        "compiled from the source, exact statement shape) gives the same list of lines when every CRLF is replaced by LF, when CRLF+space or "
+        "CRLF+tab folds are inserted at ANY set of positions inside lines (a non-deterministic rewrite: all choices are proved to agree), "
+        "and when blank lines are appended; to_unicode decodes bytes with utf-8-sig (shape). Name case: a static relational obligation on "
+        "the real Component.from_ical loop - the raw name is never compared or used as a key unless upper-cased or handed to a caseless "
+        "container; candidates count only after native confirmation. That equal line lists and equal branches give equal trees and "
+        "equal utcoffsets is exercised by a labelled bounded stand-in: all fixtures x rewrites x random compositions, both providers, "
+        "fresh timezone cache per parse.",
+   note="Trusted: vc/fstc, the caseless containers' contracts (C17), the codec utf-8-sig, the syntactic scope of the taint scan (the loop, "
+        "not callees). 'other': the tree-level conclusion composes line-level proofs with a bounded stand-in.",
+   technique="contract-based deductive verification: fstc equivalence of the real line splitter under LF / arbitrary refolding / blank lines, static case-insensitivity obligation on the parse loop; bounded metamorphic stand-in"),
 }
 NA_REASON = "check not built yet (build round in progress; DESIGN.md section 8 describes the planned contracts)"
 
